@@ -239,6 +239,21 @@ theorem short_range_second_pass_fixed (first : Nat) (ivs : List Nat) (s : Stmt)
   unfold calcQueryInterval
   rw [if_pos h0, if_pos h1]
 
+/-- the code's intermediate (unguarded) is the second pass of `leafViaIntermediate`; the guarded
+shape hands a planned statement on unchanged, so behind it `leafDirect`'s statement arrives. -/
+theorem intermediatePlan_unguarded (first : Nat) (ivs : List Nat) (s : Stmt) :
+    intermediatePlan false first ivs (calcPlan first ivs s) = leafViaIntermediate first ivs s := by
+  simp [intermediatePlan, leafViaIntermediate]
+
+theorem intermediatePlan_guarded_fixed (first : Nat) (ivs : List Nat) (s : Stmt)
+    (hfirst : first ∈ ivs) (hpos : ∀ v ∈ ivs, 0 < v) :
+    intermediatePlan true first ivs (calcPlan first ivs s) = leafDirect first ivs s := by
+  have h : 0 < (calcPlan first ivs s).storage := by
+    have := hpos _ (findMatch_mem first ivs
+      (calcQueryInterval (s.stop - s.start) (if s.interval = 0 then first else s.interval)) hfirst)
+    simpa [calcPlan, calcWith] using this
+  simp [intermediatePlan, leafDirect, h]
+
 /-- non-vacuity: `group by time(25s)` on a 10s database, 30 minutes from an unaligned start. -/
 example : leafViaIntermediate 10000 [10000]
       { start := 1700000050000, stop := 1700001850000, interval := 25000, storage := 0, ratio := 0, auto := false }
@@ -256,10 +271,11 @@ theorem generated_calc_time_range :
     Generated.C12.calcTruncUnitDefs = ["intervalVal := storageInterval.Int64()"] ∧
     Generated.C12.rootMakePlanCalcCalls = 1 ∧
     Generated.C12.intermediateMakePlanCalcCalls = 1 ∧
+    Generated.C12.intermediateCalcGuarded = false ∧
     Generated.C12.calcQueryIntervalTable = ["diff < timeutil.OneHour => return queryInterval", "diff < 3*timeutil.OneHour => return Interval(10 * timeutil.OneSecond)", "diff < 6*timeutil.OneHour => return Interval(30 * timeutil.OneSecond)", "diff < 12*timeutil.OneHour => return Interval(timeutil.OneMinute)", "diff < timeutil.OneDay => return Interval(2 * timeutil.OneMinute)", "diff < 2*timeutil.OneDay => return Interval(5 * timeutil.OneMinute)", "diff < 7*timeutil.OneDay => return Interval(10 * timeutil.OneMinute)", "diff < timeutil.OneMonth => return Interval(timeutil.OneHour)", "diff < 2*timeutil.OneMonth => return Interval(4 * timeutil.OneHour)", "diff < 3*timeutil.OneMonth => return Interval(12 * timeutil.OneHour)", "default => return Interval(timeutil.OneDay)"] ∧
     Generated.C12.truncateSteps = ["return timestamp / interval * interval"] ∧
     Generated.C12.calIntervalRatioSteps = ["if storageInterval == 0 || queryInterval < storageInterval", "  return 1", "return int(queryInterval / storageInterval)"] := by
-  refine ⟨?_, ?_, ?_, ?_, ?_, ?_, ?_, ?_⟩ <;> decide
+  refine ⟨?_, ?_, ?_, ?_, ?_, ?_, ?_, ?_, ?_⟩ <;> decide
 
 namespace Neg
 
